@@ -414,6 +414,8 @@ def rule_default_on_own_parameter(ctx, rep: Report, rid="B2"):
     def vals(e, depth=3):
         if isinstance(e, ast.Call) and isinstance(e.func, ast.Attribute) and e.func.attr == "format" and e.args:
             return vals(e.args[0], depth)
+        if isinstance(e, ast.JoinedStr) and len(e.values) == 1 and isinstance(e.values[0], ast.FormattedValue):
+            return vals(e.values[0].value, depth)         # f'{x}' is x
         if isinstance(e, ast.Name) and depth > 0:
             vs = [st.value for st in walk_no_nested(scope) if isinstance(st, ast.Assign) and len(st.targets) == 1
                   and isinstance(st.targets[0], ast.Name) and st.targets[0].id == e.id]
@@ -561,7 +563,7 @@ def rule_return_polarity(ctx, rep: Report, rid="B4"):
         fc = find_tpl(ctx, fn, {"opt_return", "caller"})
         if fc is None:
             raise AnalysisError(f"{name}: function_call template not found")
-        e = fc.slot("opt_return").expr
+        e = fc.slot("opt_return").val
         rv = None
         ok = False
         if isinstance(e, ast.IfExp) and isinstance(e.test, ast.UnaryOp) and isinstance(e.test.op, ast.Not):
@@ -688,17 +690,24 @@ def rule_operator_shape(ctx, rep: Report, rid="B7"):
         return t
 
     def emitted(body) -> str:
+        """Skeleton of the text one dispatch branch produces (`@` = a slot, `OP` = the operator's own text)."""
         for st in body:
             for c in ast.walk(st):
                 if isinstance(c, ast.Call) and isinstance(c.func, ast.Attribute) and c.func.attr == "format":
                     p = parent(c)
                     if isinstance(p, ast.Attribute) and p.attr == "format":
                         continue
-                    if any(isinstance(a, ast.Call) and isinstance(a.func, ast.Attribute) and a.func.attr == "format" for a in c.args):
+                    # two stages: `template.format(<operand text>)` with the operand text itself a format call or an f-string
+                    if len(c.args) == 1 and not c.keywords and (isinstance(c.args[0], ast.JoinedStr) or (
+                            isinstance(c.args[0], ast.Call) and isinstance(c.args[0].func, ast.Attribute) and c.args[0].func.attr == "format")):
                         inner = fold_any(c.args[0])
                         outer = fold_any(c.func.value)
                         if inner is not None and outer is not None:
                             return outer.literal("@").replace("@", "", 1).replace("{0}", inner.literal("OP")).strip()
+                    t = fold_any(c)
+                    if t is not None:
+                        return t.literal("@")
+                elif isinstance(c, ast.JoinedStr) and not isinstance(parent(c), ast.Call):
                     t = fold_any(c)
                     if t is not None:
                         return t.literal("@")
@@ -1696,7 +1705,13 @@ def rule_templates_are_constant(ctx, rep: Report, rid="Q10", cls="PybindWrapper"
             if isinstance(e, ast.Constant) and isinstance(e.value, str):
                 return True, ""
             if isinstance(e, ast.JoinedStr):
-                return False, f"f-string `{unparse(e)[:40]}`"
+                # the same two-stage template written as an f-string: every field has to be layout text the caller chose
+                for v_ in e.values:
+                    if isinstance(v_, ast.FormattedValue):
+                        ok, why = constant_text(v_.value, depth - 1)
+                        if not ok:
+                            return False, f"f-string field {why or unparse(v_.value)[:40]}"
+                return True, ""
             if isinstance(e, ast.BinOp) and isinstance(e.op, (ast.Add, ast.Mult)):
                 if isinstance(e.op, ast.Mult):
                     return constant_text(e.left, depth)
